@@ -1,8 +1,12 @@
-(* C08 at trace level, the delivery / notification clauses (803, 804, 806) on traces in which no frame is ever buffered in
-   the inbound channel (no EArrive event, or InChanCapacity = 0).  These clauses are FALSE on arbitrary traces
-   (C08TraceProofs.v: c08_803_refuted, c08_804_refuted, c08_806_refuted - the recorded finding drain-after-disconnect:
-   drainMessageIn processes buffered frames after the close, in the old state).  Here: they hold whenever nothing is
-   buffered, so the buffered-frame drain is the ONLY way the model violates them. *)
+(* C08 at trace level, the delivery / notification clauses of c08_check on EVERY trace of the model:
+     803  FromApp only between the logon notification and the logout notification,
+     804  never two logout notifications for one logged-on period,
+     806  a logged-on period never ends (channel closed) without the logout notification.
+   They were false of the model (and the code) as long as handleDisconnectState notified and closed BEFORE it drained
+   messageIn (finding drain-after-disconnect, F17).  With the repair - drain first, in the state the session is still in,
+   channel open; notify and close once, at the innermost level - they hold for every configuration and every event list,
+   buffered frames included.  Proof: the invariant RI (below) is kept by every "handler, then setState" round
+   (C08WireProofs.Rounds), hence by drainMessageIn, setState and every event. *)
 From Coq Require Import String.
 From Coq Require Import ZArith List Bool Lia.
 From QF Require Import Base.Bytes Session.Types Session.Model Session.Spec Session.C01Proofs Session.LocalProofs
@@ -12,43 +16,11 @@ Import ListNotations.
 Open Scope list_scope.
 Open Scope Z_scope.
 
-(* ---------- setState when nothing is buffered ---------- *)
-Lemma drain_quiet s : s_in_buf s = [] -> drain s = s.
-Proof.
-  intros H. unfold drain. rewrite H. cbn [length drain_message_in].
-  destruct (negb (s_in_open s)); [reflexivity|]. rewrite H. reflexivity.
-Qed.
-
-(* handleDisconnectState notifies the application iff the session was logged on, had sent its Logout, or is an
+(* handleDisconnectState notifies the application iff the session is logged on, has sent its Logout, or is an
    initiator whose Logon was never answered *)
 Definition dol (s : sess) : bool :=
   is_logged_on (s_st s) || match s_st s with SLogout => true | SLogon => initiator s | _ => false end.
 
-Lemma set_state_quiet s1 next : s_in_buf s1 = [] ->
-  let s' := set_state s1 next in
-  s_st s' = next /\ s_in_buf s' = []
-  /\ (is_connected next = true -> s_cbs s' = s_cbs s1 /\ s_closed s' = s_closed s1)
-  /\ (is_connected next = false -> is_connected (s_st s1) = false -> s_cbs s' = s_cbs s1 /\ s_closed s' = s_closed s1)
-  /\ (is_connected next = false -> is_connected (s_st s1) = true ->
-      exists rd : bool, s_cbs s' = (if rd then [CbStoreReset] else []) ++ (if dol s1 then [CbOnLogout] else []) ++ s_cbs s1).
-Proof.
-  intros Hb s'. unfold s', set_state. split; [apply s_st_set_state_with|].
-  unfold set_state_with. destruct (is_connected next) eqn:En; cbn [negb].
-  - split; [exact Hb|]. split; [intros _; split; reflexivity|]. split; intros X; discriminate X.
-  - destruct (is_connected (s_st s1)) eqn:Ec.
-    + unfold handle_disconnect_state. cbv zeta. fold (dol s1).
-      match goal with |- context [drain ?x] => assert (Hx : s_in_buf x = []) by
-        (repeat match goal with |- context [if ?b then _ else _] => destruct b end; exact Hb);
-        rewrite (drain_quiet x Hx) end.
-      split; [destruct (s_pending_stop _); reflexivity|].
-      split; [intros X; discriminate X|]. split; [intros _ X; discriminate X|]. intros _ _.
-      exists (c_reset_on_disconnect (s_cfg s1)).
-      destruct (dol s1); cbn [s_cfg log_cb upd_logs]; destruct (c_reset_on_disconnect (s_cfg s1));
-        repeat match goal with |- context [if ?b then _ else _] => destruct b end; reflexivity.
-    + split; [destruct (s_pending_stop s1); exact Hb|].
-      split; [intros X; discriminate X|]. split; [intros _ _; destruct (s_pending_stop s1); split; reflexivity|].
-      intros _ X; discriminate X.
-Qed.
 
 (* ---------- the callbacks of logonState.FixMsgIn ---------- *)
 Definition CbP (P : cb -> Prop) (s0 s : sess) : Prop := exists new, s_cbs s = new ++ s_cbs s0 /\ Forall P new.
@@ -276,41 +248,6 @@ Proof.
 Qed.
 
 (* one event of c08_scan whose callbacks are "handler part, then disconnect part" *)
-Lemma event_codes_quiet k e o hc dol rd :
-  ob_cbs o = hc ++ dcs dol rd -> Forall (cb_ok Lnologout) hc ->
-  (k_logged (c08_k0 k e) = false -> Forall no_fromapp hc) ->
-  (ob_closed o = true -> dol = true \/ (k_logged (c08_k0 k e) = false /\ has_onlogon hc = false)) ->
-  (forall x, In x (c08_event_codes k e o) -> ~ In x [803; 804; 806])
-  /\ k_logged (c08_next k e o) = (if dol then false else k_logged (c08_k0 k e) || has_onlogon hc).
-Proof.
-  intros Hcbs Hh Hf Hcl.
-  destruct (fold_steps_app c08_cb_step hc (dcs dol rd) (c08_k0 k e)) as [F1 F2].
-  destruct (cb_fold_handler hc (c08_k0 k e) Hh Hf) as [G1 G2].
-  destruct (cb_fold_disconnect (fst (fold_steps c08_cb_step (c08_k0 k e) hc)) dol rd) as [D1 D2].
-  assert (Hk1 : k_logged (fst (fold_steps c08_cb_step (c08_k0 k e) (ob_cbs o)))
-                = (if dol then false else k_logged (c08_k0 k e) || has_onlogon hc)).
-  { rewrite Hcbs, F1, D2, G2. reflexivity. }
-  assert (He1 : snd (fold_steps c08_cb_step (c08_k0 k e) (ob_cbs o)) = []).
-  { rewrite Hcbs, F2, G1, D1. reflexivity. }
-  split; [|unfold c08_next; cbv zeta; cbn [k_logged]; exact Hk1].
-  intros x Hx. unfold c08_event_codes in Hx. cbv zeta in Hx. rewrite He1, Hk1 in Hx.
-  assert (Hfa : fromapp_after_logout false (ob_cbs o) = false).
-  { rewrite Hcbs, faL_handler by exact Hh. destruct dol, rd; reflexivity. }
-  rewrite Hfa in Hx. cbn [app] in Hx.
-  apply in_app_or in Hx as [Hx|Hx].
-  { apply wire_fold_codes_any in Hx. intros [H|[H|[H|[]]]]; subst x; destruct Hx as [Hx|[Hx|Hx]]; discriminate Hx. }
-  exfalso. apply in_app_or in Hx as [Hx|Hx].
-  - (* 804 *)
-    assert (Hc : Nat.ltb 1 (count_onlogout (ob_cbs o)) = false).
-    { rewrite Hcbs. unfold count_onlogout. rewrite filter_app, app_length.
-      fold (count_onlogout hc). rewrite (count_onlogout_handler hc Hh). destruct dol, rd; reflexivity. }
-    rewrite Hc in Hx. destruct Hx.
-  - (* 806 *)
-    destruct (ob_closed o) eqn:Ec; [|destruct Hx]. cbn [andb] in Hx.
-    destruct (Hcl eq_refl) as [-> | [A1 A2]]; [destruct Hx|].
-    rewrite A1, A2 in Hx. destruct dol; destruct Hx.
-Qed.
-
 (* ---------- the model side: one event when nothing is buffered ---------- *)
 (* "inside a logon" as the automaton counts it: logged on, or the engine's Logout sent and the connection still up *)
 Definition gl (st : sstate) : bool := is_logged_on st || match st with SLogout => true | _ => false end.
@@ -345,15 +282,6 @@ Qed.
 Lemma boring_no_fromapp c : cb_ok Lboring c -> no_fromapp c.
 Proof. destruct c; cbn; auto. Qed.
 
-Definition QStep (st : sstate) (s' : sess) : Prop :=
-  exists hc dl rd,
-    rev (s_cbs s') = hc ++ dcs dl rd /\ Forall (cb_ok Lnologout) hc
-    /\ (gl st = false -> Forall no_fromapp hc)
-    /\ (s_closed s' = true -> dl = true \/ (gl st = false /\ has_onlogon hc = false))
-    /\ gl (s_st s') = (if dl then false else gl st || has_onlogon hc)
-    /\ s_in_buf s' = [] /\ (gst (s_st s') = true \/ s_st s' = SLogon).
-
-(* a handler result: frame, callbacks added, next state *)
 Definition HOK (c s1 : sess) (next : sstate) : Prop :=
   Same c s1 /\ exists new, s_cbs s1 = new ++ s_cbs c /\ Forall (cb_ok Lnologout) new
     /\ (gl (s_st c) = false -> Forall no_fromapp new)
@@ -361,58 +289,6 @@ Definition HOK (c s1 : sess) (next : sstate) : Prop :=
     /\ (is_connected next = false -> gl (s_st c) = false -> has_onlogon new = false)
     /\ (gst next = true \/ next = SLogon).
 
-Lemma hok_finish c s1 next : s_cbs c = [] -> s_closed c = false -> s_in_buf c = [] ->
-  HOK c s1 next -> QStep (s_st c) (set_state s1 next).
-Proof.
-  intros Hcb Hcl Hib ((S1 & S2 & S3 & S4 & S5 & S6 & S7 & S8) & new & A1 & A2 & A3 & A4 & A5 & A6).
-  rewrite Hcb, app_nil_r in A1.
-  assert (Hib1 : s_in_buf s1 = []) by congruence.
-  destruct (set_state_quiet s1 next Hib1) as (Q1 & Q2 & Q3 & Q4 & Q5).
-  unfold QStep. rewrite Q1.
-  destruct (is_connected next) eqn:En.
-  - destruct (Q3 eq_refl) as [C1 C2]. exists (rev new), false, false.
-    split; [rewrite C1, A1; cbn [dcs app]; rewrite app_nil_r; reflexivity|].
-    split; [apply Forall_rev; exact A2|].
-    split; [intros X; apply Forall_rev; exact (A3 X)|].
-    split; [rewrite C2, S7, Hcl; intros X; discriminate X|].
-    split; [rewrite has_onlogon_rev; exact (A4 eq_refl)|]. split; [exact Q2 | exact A6].
-  - destruct (is_connected (s_st s1)) eqn:Ec.
-    + destruct (Q5 eq_refl eq_refl) as (rd & C1). exists (rev new), (dol s1), rd.
-      split. { rewrite C1, A1. unfold dcs. destruct (dol s1), rd; cbn [app rev]; rewrite ?app_nil_r, <- ?app_assoc; reflexivity. }
-      split; [apply Forall_rev; exact A2|].
-      split; [intros X; apply Forall_rev; exact (A3 X)|].
-      rewrite has_onlogon_rev.
-      split.
-      { intros _. destruct (gl (s_st c)) eqn:Eg.
-        - left. apply gl_dol. rewrite S8. exact Eg.
-        - right. split; [reflexivity | exact (A5 eq_refl eq_refl)]. }
-      split.
-      { rewrite (notconn_gl next En). destruct (dol s1) eqn:Ed; [reflexivity|].
-        destruct (gl (s_st c)) eqn:Eg.
-        - rewrite <- S8 in Eg. apply gl_dol in Eg. congruence.
-        - rewrite (A5 eq_refl eq_refl). reflexivity. }
-      split; [exact Q2 | exact A6].
-    + destruct (Q4 eq_refl eq_refl) as [C1 C2]. exists (rev new), false, false.
-      assert (Eg : gl (s_st c) = false) by (apply notconn_gl; rewrite <- S8; exact Ec).
-      split; [rewrite C1, A1; cbn [dcs app]; rewrite app_nil_r; reflexivity|].
-      split; [apply Forall_rev; exact A2|].
-      split; [intros X; apply Forall_rev; exact (A3 X)|].
-      split; [rewrite C2, S7, Hcl; intros X; discriminate X|].
-      split; [rewrite has_onlogon_rev, (notconn_gl next En), Eg, (A5 eq_refl Eg); reflexivity|].
-      split; [exact Q2 | exact A6].
-Qed.
-
-Lemma plain_finish st s' : Forall (cb_ok Lboring) (s_cbs s') -> s_closed s' = false -> s_in_buf s' = [] ->
-  gl (s_st s') = gl st -> (gst (s_st s') = true \/ s_st s' = SLogon) -> QStep st s'.
-Proof.
-  intros Hb Hc Hi Hg Hw. exists (rev (s_cbs s')), false, false.
-  split; [cbn [dcs app]; rewrite app_nil_r; reflexivity|].
-  split; [apply Forall_rev; eapply Forall_impl; [|exact Hb]; exact cb_ok_weaken|].
-  split; [intros _; apply Forall_rev; eapply Forall_impl; [|exact Hb]; exact boring_no_fromapp|].
-  split; [rewrite Hc; intros X; discriminate X|].
-  split; [rewrite has_onlogon_rev, (boring_has_onlogon _ Hb), orb_false_r; exact Hg|].
-  split; assumption.
-Qed.
 
 Lemma logon_cb_nologout c : logon_cb c -> cb_ok Lnologout c.
 Proof. destruct c; cbn; intros H; try contradiction; intro X; discriminate X. Qed.
@@ -482,145 +358,325 @@ Proof.
     split; [intros _ X; discriminate X | left; exact Hn].
 Qed.
 
-Lemma plain_same c x : s_cbs c = [] -> s_closed c = false -> s_in_buf c = [] ->
-  (gst (s_st c) = true \/ s_st c = SLogon) -> Same c x -> CbR Lboring c x -> QStep (s_st c) x.
+
+(* ---------- the invariant of one event, kept through the drain ---------- *)
+(* k0 = the automaton of c08_check at the start of the event (after its Connect adjustment).  At every round boundary of
+   the event: the callbacks so far raise no 803; what the automaton believes ("logged") is what the session state says;
+   while the session is connected no logout notification has been issued and the channel has not been closed; there is
+   at most one logout notification. *)
+Definition WSt (st : sstate) : Prop := gst st = true \/ st = SLogon.
+Definition RI (k0 : c08_st) (x : sess) : Prop :=
+  Boundary x /\ WSt (s_st x)
+  /\ snd (fold_steps c08_cb_step k0 (rev (s_cbs x))) = []
+  /\ fromapp_after_logout false (rev (s_cbs x)) = false
+  /\ k_logged (fst (fold_steps c08_cb_step k0 (rev (s_cbs x)))) = gl (s_st x)
+  /\ (is_connected (s_st x) = true -> s_closed x = false /\ Forall (cb_ok Lnologout) (s_cbs x))
+  /\ (count_onlogout (rev (s_cbs x)) <= 1)%nat.
+
+Lemma count_onlogout_app a b : count_onlogout (a ++ b) = (count_onlogout a + count_onlogout b)%nat.
+Proof. unfold count_onlogout. rewrite filter_app, app_length. reflexivity. Qed.
+
+Lemma faL_nil_r hc : Forall (cb_ok Lnologout) hc -> fromapp_after_logout false hc = false.
+Proof. intros H. rewrite <- (app_nil_r hc), faL_handler by exact H. reflexivity. Qed.
+
+(* callbacks are added while the session is connected: no OnLogout among them, no FromApp unless inside a logon *)
+Lemma ri_extend k0 x y new : RI k0 x -> is_connected (s_st x) = true ->
+  s_cbs y = new ++ s_cbs x -> Forall (cb_ok Lnologout) new -> (gl (s_st x) = false -> Forall no_fromapp new) ->
+  s_closed y = s_closed x -> Boundary y -> WSt (s_st y) -> gl (s_st y) = gl (s_st x) || has_onlogon new ->
+  RI k0 y.
 Proof.
-  intros Hcb Hcl Hib Hw (S1 & S2 & S3 & S4 & S5 & S6 & S7 & S8) (new & A1 & A2).
-  rewrite Hcb, app_nil_r in A1. apply plain_finish.
-  - rewrite A1. exact A2.
-  - congruence.
-  - congruence.
-  - rewrite S8. reflexivity.
-  - rewrite S8. exact Hw.
+  intros (Hb & Hw & R1 & R2 & R3 & R4 & R5) Hc Hcb Hn Hf Hcl Hby Hwy Hg.
+  destruct (R4 Hc) as [C1 C2].
+  assert (Hold : Forall (cb_ok Lnologout) (rev (s_cbs x))) by (apply Forall_rev; exact C2).
+  assert (Hnew : Forall (cb_ok Lnologout) (rev new)) by (apply Forall_rev; exact Hn).
+  destruct (fold_steps_app c08_cb_step (rev (s_cbs x)) (rev new) k0) as [F1 F2].
+  destruct (cb_fold_handler (rev new) (fst (fold_steps c08_cb_step k0 (rev (s_cbs x)))) Hnew) as [G1 G2].
+  { rewrite R3. intros X. apply Forall_rev. exact (Hf X). }
+  split; [exact Hby|]. split; [exact Hwy|]. rewrite Hcb, rev_app_distr.
+  split; [rewrite F2, R1, G1; reflexivity|].
+  split; [rewrite faL_handler by exact Hold; apply faL_nil_r; exact Hnew|].
+  split; [rewrite F1, G2, R3, has_onlogon_rev; symmetry; exact Hg|].
+  split.
+  - intros _. split; [rewrite Hcl; exact C1|]. rewrite <- rev_app_distr, <- Hcb in *.
+    rewrite Hcb. apply Forall_app; split; assumption.
+  - rewrite count_onlogout_app, (count_onlogout_handler _ Hold), (count_onlogout_handler _ Hnew). auto.
 Qed.
 
-(* an event that buffers nothing: every event but an arrival into a channel with room *)
-Definition quiet_ev (c : cfg) (e : event) : Prop := match e with EArrive _ => c_in_cap c = 0%nat | _ => True end.
-
-Lemma quiet_step : forall s e, s_in_buf s = [] -> (gst (s_st s) = true \/ s_st s = SLogon) -> quiet_ev (s_cfg s) e ->
-  QStep (s_st s) (step s e).
+Lemma cbs_fin s next : s_cbs (fin s next) = s_cbs s.
+Proof. unfold fin. destruct (s_pending_stop s); reflexivity. Qed.
+Lemma closed_fin s next : s_closed (fin s next) = s_closed s.
+Proof. unfold fin. destruct (s_pending_stop s); reflexivity. Qed.
+Lemma cbs_disconnect_now s : exists rd : bool,
+  s_cbs (disconnect_now s) = (if rd then [CbStoreReset] else []) ++ (if dol s then [CbOnLogout] else []) ++ s_cbs s.
 Proof.
-  intros s e Hib0 Hw0 Hq0. unfold step.
-  change (s_st s) with (s_st (clear_logs s)). change (s_st s) with (s_st (clear_logs s)) in Hw0.
-  change (s_cfg s) with (s_cfg (clear_logs s)) in Hq0.
+  exists (c_reset_on_disconnect (s_cfg s)). unfold disconnect_now. cbv zeta. fold (dol s).
+  destruct (dol s); cbn [s_cfg log_cb upd_logs]; destruct (c_reset_on_disconnect (s_cfg s));
+    repeat match goal with |- context [if ?b then _ else _] => destruct b end; reflexivity.
+Qed.
+
+(* the disconnect itself: at most the one logout notification, due exactly when the automaton is "logged" *)
+Lemma ri_disc k0 s0 next : RI k0 s0 -> is_connected (s_st s0) = true -> is_connected next = false -> WSt next ->
+  RI k0 (fin (disconnect_now s0) next).
+Proof.
+  intros (Hb & Hw & R1 & R2 & R3 & R4 & R5) Hc Hn Hwn.
+  destruct (R4 Hc) as [C1 C2].
+  assert (Hold : Forall (cb_ok Lnologout) (rev (s_cbs s0))) by (apply Forall_rev; exact C2).
+  destruct (cbs_disconnect_now s0) as (rd & Hcb).
+  assert (Hrev : rev (s_cbs (fin (disconnect_now s0) next)) = rev (s_cbs s0) ++ dcs (dol s0) rd).
+  { rewrite cbs_fin, Hcb. unfold dcs. destruct (dol s0), rd; cbn [app rev]; rewrite ?app_nil_r, <- ?app_assoc; reflexivity. }
+  destruct (fold_steps_app c08_cb_step (rev (s_cbs s0)) (dcs (dol s0) rd) k0) as [F1 F2].
+  destruct (cb_fold_disconnect (fst (fold_steps c08_cb_step k0 (rev (s_cbs s0)))) (dol s0) rd) as [D1 D2].
+  split; [apply boundary_fin_disconnect; exact Hn|]. split; [exact Hwn|]. rewrite Hrev.
+  split; [rewrite F2, R1, D1; reflexivity|].
+  split; [rewrite faL_handler by exact Hold; destruct (dol s0), rd; reflexivity|].
+  split.
+  { rewrite F1, D2, R3. cbn [s_st fin upd_st]. rewrite (notconn_gl next Hn).
+    destruct (dol s0) eqn:Ed; [reflexivity|]. destruct (gl (s_st s0)) eqn:Eg; [|reflexivity].
+    apply gl_dol in Eg. congruence. }
+  split; [cbn [s_st fin upd_st]; intros X; congruence|].
+  rewrite count_onlogout_app, (count_onlogout_handler _ Hold). destruct (dol s0), rd; cbn; auto.
+Qed.
+
+Lemma ri_dead k0 s0 next : RI k0 s0 -> is_connected (s_st s0) = false -> is_connected next = false -> WSt next ->
+  RI k0 (fin s0 next).
+Proof.
+  intros (Hb & Hw & R1 & R2 & R3 & R4 & R5) Hc Hn Hwn.
+  split; [apply boundary_fin_dead; assumption|]. split; [exact Hwn|]. rewrite cbs_fin.
+  split; [exact R1|]. split; [exact R2|].
+  split; [rewrite R3; cbn [s_st fin upd_st]; rewrite (notconn_gl _ Hc), (notconn_gl _ Hn); reflexivity|].
+  split; [cbn [s_st fin upd_st]; intros X; congruence | exact R5].
+Qed.
+
+Lemma ri_pop k0 x m r : RI k0 x -> s_in_buf x = m :: r -> RI k0 (upd_chan x (s_out_open x) (s_in_open x) r (s_closed x)).
+Proof.
+  intros (Hb & Hrest) Eb. split; [eapply boundary_pop; eassumption | exact Hrest].
+Qed.
+
+(* one handler round *)
+Lemma ri_hok k0 x s1 next : RI k0 x -> is_connected (s_st x) = true -> HOK x s1 next ->
+  (is_connected next = true -> RI k0 (upd_st s1 next)) /\ (is_connected next = false -> RI k0 s1 /\ WSt next).
+Proof.
+  intros Hri Hc (Hs & new & A1 & A2 & A3 & A4 & A5 & A6).
+  pose proof Hri as (Hb & Hw & _).
+  pose proof Hs as (S1 & S2 & S3 & S4 & S5 & S6 & S7 & S8).
+  split; intros Hn.
+  - apply (ri_extend k0 x (upd_st s1 next) new Hri Hc); try assumption.
+    + eapply boundary_upd_st_connected; eassumption.
+    + cbn [s_st upd_st]. exact (A4 Hn).
+  - split; [|exact A6]. apply (ri_extend k0 x s1 new Hri Hc); try assumption.
+    + eapply boundary_same; eassumption.
+    + rewrite S8. exact Hw.
+    + rewrite S8. destruct (gl (s_st x)) eqn:Eg; [reflexivity|]. rewrite (A5 Hn eq_refl). reflexivity.
+Qed.
+
+Lemma ri_msg k0 x m s1 next : RI k0 x -> is_connected (s_st x) = true -> state_fix_msg_in (s_st x) x m = (s1, next) ->
+  (is_connected next = true -> RI k0 (upd_st s1 next)) /\ (is_connected next = false -> RI k0 s1 /\ WSt next).
+Proof.
+  intros Hri Hc E. apply (ri_hok k0 x); [exact Hri | exact Hc|]. destruct Hri as (_ & Hw & _). apply (hok_state_fix x m); assumption.
+Qed.
+
+Lemma ri_set_state k0 c s1 next : RI k0 c -> is_connected (s_st c) = true -> HOK c s1 next -> RI k0 (set_state s1 next).
+Proof.
+  intros Hri Hc Hh. destruct (ri_hok k0 c s1 next Hri Hc Hh) as [H1 H2].
+  apply (rounds_set_state (RI k0) WSt).
+  - exact (ri_pop k0).
+  - intros x m s2 n Hp Hx E Hn. exact (proj1 (ri_msg k0 x m s2 n Hp Hx E) Hn).
+  - intros x m s2 n Hp Hx E Hn. exact (proj2 (ri_msg k0 x m s2 n Hp Hx E) Hn).
+  - exact (ri_dead k0).
+  - exact (ri_disc k0).
+  - destruct Hh as ((_ & _ & _ & _ & _ & _ & _ & S8) & _). rewrite S8. exact Hc.
+  - exact H1.
+  - exact H2.
+Qed.
+
+Lemma ri_incoming k0 x m : RI k0 x -> RI k0 (incoming x m).
+Proof.
+  intros Hp. apply (rounds_incoming (RI k0) WSt); try assumption.
+  - exact (ri_pop k0).
+  - intros y mm s2 n Hy Hx E Hn. exact (proj1 (ri_msg k0 y mm s2 n Hy Hx E) Hn).
+  - intros y mm s2 n Hy Hx E Hn. exact (proj2 (ri_msg k0 y mm s2 n Hy Hx E) Hn).
+  - exact (ri_dead k0).
+  - exact (ri_disc k0).
+Qed.
+
+(* a state whose callbacks of this event are all ToAdmin / ToApp / StoreReset *)
+Lemma ri_boring k0 y : Boundary y -> WSt (s_st y) -> Forall (cb_ok Lboring) (s_cbs y) -> s_closed y = false ->
+  k_logged k0 = gl (s_st y) -> RI k0 y.
+Proof.
+  intros Hb Hw Hbo Hcl Hk.
+  assert (Hn : Forall (cb_ok Lnologout) (s_cbs y)) by (eapply Forall_impl; [|exact Hbo]; exact cb_ok_weaken).
+  assert (Hnr : Forall (cb_ok Lnologout) (rev (s_cbs y))) by (apply Forall_rev; exact Hn).
+  destruct (cb_fold_handler (rev (s_cbs y)) k0 Hnr) as [G1 G2].
+  { intros _. apply Forall_rev. eapply Forall_impl; [|exact Hbo]. exact boring_no_fromapp. }
+  split; [exact Hb|]. split; [exact Hw|]. split; [exact G1|]. split; [apply faL_nil_r; exact Hnr|].
+  split; [rewrite G2, has_onlogon_rev, (boring_has_onlogon _ Hbo), orb_false_r; exact Hk|].
+  split; [intros _; split; assumption|]. rewrite (count_onlogout_handler _ Hnr). auto.
+Qed.
+
+Lemma notconn_latent st : WSt st -> is_connected st = false -> st = SLatent.
+Proof. intros [H|H] Hc; [|subst; discriminate Hc]. destruct st; cbn in *; try discriminate; try reflexivity. apply logged_on_connected in H. congruence. Qed.
+
+(* ---------- one event ---------- *)
+Lemma ri_step : forall k0 s e, Boundary s -> WSt (s_st s) -> k_logged k0 = gl (s_st s) -> RI k0 (step s e).
+Proof.
+  intros k0 s e Hb0 Hw0 Hk0.
+  pose proof (step_boundary s e Hb0) as Hb'. unfold step in *.
+  assert (Hb : Boundary (clear_logs s)) by exact Hb0.
+  assert (Hw : WSt (s_st (clear_logs s))) by exact Hw0.
+  assert (Hk : k_logged k0 = gl (s_st (clear_logs s))) by exact Hk0.
   assert (Hcb : s_cbs (clear_logs s) = []) by reflexivity.
   assert (Hcl : s_closed (clear_logs s) = false) by reflexivity.
-  assert (Hib : s_in_buf (clear_logs s) = []) by exact Hib0.
-  set (c := clear_logs s) in *. clearbody c. clear Hib0.
-  assert (Hplain : QStep (s_st c) c) by (apply plain_same; try assumption; [apply same_refl | apply cbr_refl]).
-  destruct e; cbn [step_event].
+  set (c := clear_logs s) in *. clearbody c. clear Hb0 Hw0 Hk0.
+  assert (Hri : RI k0 c) by (apply ri_boring; try assumption; rewrite Hcb; constructor).
+  (* an event that only logs ToAdmin / ToApp / StoreReset and leaves state and closed mark alone *)
+  assert (Hplain : forall y, Boundary y -> Same c y -> CbR Lboring c y -> RI k0 y).
+  { intros y Hby (S1 & S2 & S3 & S4 & S5 & S6 & S7 & S8) (new & A1 & A2). rewrite Hcb, app_nil_r in A1.
+    apply ri_boring; [exact Hby | rewrite S8; exact Hw | rewrite A1; exact A2 | congruence | rewrite S8; exact Hk]. }
+  destruct e; cbn [step_event] in *.
   - (* connect *)
-    unfold connect. destruct (is_connected (s_st c)) eqn:Ec; [exact Hplain|].
-    match goal with |- context [set_sent_reset ?x false] => set (c0 := set_sent_reset x false) end.
-    assert (Hfin : forall x, Same c0 x -> CbR Lboring c0 x -> QStep (s_st c) (set_state x SLogon)).
-    { intros x (S1 & S2 & S3 & S4 & S5 & S6 & S7 & S8) (new & A1 & A2).
-      change (set_state x SLogon) with (upd_st x SLogon). apply plain_finish.
+    unfold connect in *. destruct (is_connected (s_st c)) eqn:Ec; [exact Hri|].
+    match goal with |- context [set_sent_reset ?x false] => set (c0 := set_sent_reset x false) in * end.
+    assert (Hfin : forall x, Boundary (set_state x SLogon) -> Same c0 x -> CbR Lboring c0 x -> RI k0 (set_state x SLogon)).
+    { intros x Hbx (S1 & S2 & S3 & S4 & S5 & S6 & S7 & S8) (new & A1 & A2).
+      change (set_state x SLogon) with (upd_st x SLogon) in *. apply ri_boring.
+      - exact Hbx.
+      - right. reflexivity.
       - cbn [s_cbs upd_st]. rewrite A1. change (s_cbs c0) with (s_cbs c). rewrite Hcb, app_nil_r. exact A2.
       - cbn [s_closed upd_st]. rewrite S7. exact Hcl.
-      - cbn [s_in_buf upd_st]. rewrite S3. reflexivity.
-      - cbn [s_st upd_st]. rewrite (notconn_gl _ Ec). reflexivity.
-      - right. reflexivity. }
-    destruct (negb (initiator c0)); apply Hfin; first [fr_go | cb_go].
+      - cbn [s_st upd_st]. rewrite Hk, (notconn_gl _ Ec). reflexivity. }
+    destruct (negb (initiator c0)); apply Hfin; first [exact Hb' | fr_go | cb_go].
   - (* arrive *)
-    cbn [quiet_ev] in Hq0. rewrite Hq0.
-    replace (Nat.ltb (length (s_in_buf c)) 0) with false by (destruct (length (s_in_buf c)); reflexivity).
-    rewrite andb_false_r. exact Hplain.
+    destruct (_ && _); [|exact Hri].
+    apply ri_boring; [exact Hb' | exact Hw | cbn [s_cbs upd_chan]; rewrite Hcb; constructor | exact Hcl | exact Hk].
   - (* deliver *)
-    destruct (negb (s_in_open c)); [exact Hplain|]. rewrite Hib. exact Hplain.
-  - (* incoming *)
-    unfold incoming, incoming_with. destruct (is_connected (s_st c)) eqn:Ec; cbn [negb]; [|exact Hplain].
-    destruct (state_fix_msg_in (s_st c) c m) as [s1 next] eqn:E.
-    apply (hok_finish c s1 next Hcb Hcl Hib). apply (hok_state_fix c m); assumption.
-  - (* garbage *)
-    unfold incoming, incoming_with. destruct (negb (is_connected (s_st c))); exact Hplain.
+    destruct (negb (s_in_open c)); [exact Hri|]. destruct (s_in_buf c) as [|m r] eqn:Eb; [exact Hri|].
+    apply ri_incoming. exact (ri_pop k0 c m r Hri Eb).
+  - apply ri_incoming. exact Hri.
+  - apply ri_incoming. exact Hri.
   - (* inclosed *)
-    destruct (is_connected (s_st c)) eqn:Ec; [|exact Hplain].
-    apply (hok_finish c c SLatent Hcb Hcl Hib). apply hok_unchanged; [intros X; discriminate X | left; reflexivity].
+    destruct (is_connected (s_st c)) eqn:Ec; [|exact Hri].
+    apply (ri_set_state k0 c c SLatent Hri Ec). apply hok_unchanged; [intros X; discriminate X | left; reflexivity].
   - (* timeout *)
     destruct (state_timeout (s_st c) c e) as [s1 next] eqn:E.
-    apply (hok_finish c s1 next Hcb Hcl Hib). apply (hok_state_timeout c e); assumption.
-  - (* app send *)
-    apply plain_same; try assumption; [fr_go | cb_go].
-  - (* flush *)
-    apply plain_same; try assumption; [fr_go | cb_go].
+    destruct (is_connected (s_st c)) eqn:Ec.
+    + apply (ri_set_state k0 c s1 next Hri Ec). apply (hok_state_timeout c e); assumption.
+    + pose proof (notconn_latent _ Hw Ec) as Hs. rewrite Hs in E. cbn [state_timeout] in E. inversion E; subst s1 next.
+      rewrite set_state_not_connected in * by (try exact Ec; reflexivity).
+      apply (ri_dead k0 c SLatent Hri Ec eq_refl). left; reflexivity.
+  - (* app send *) apply Hplain; [exact Hb' | fr_go | cb_go].
+  - (* flush *) apply Hplain; [exact Hb' | fr_go | cb_go].
   - (* stop *)
-    set (c0 := upd_flags c (s_sent_reset c) (s_hb c) true (s_stopped c)).
-    change (s_st c) with (s_st c0).
+    set (c0 := upd_flags c (s_sent_reset c) (s_hb c) true (s_stopped c)) in *.
+    assert (Hri0 : RI k0 c0) by exact Hri.
     destruct (state_stop (s_st c0) c0) as [s1 next] eqn:E.
-    apply (hok_finish c0 s1 next); try assumption. apply hok_state_stop; assumption.
-  - (* reset time *)
-    apply plain_same; try assumption; [fr_go | cb_go].
+    destruct (is_connected (s_st c0)) eqn:Ec.
+    + apply (ri_set_state k0 c0 s1 next Hri0 Ec). apply hok_state_stop; assumption.
+    + pose proof (notconn_latent _ Hw Ec) as Hs. change (s_st c0) with (s_st c) in E. rewrite Hs in E.
+      cbn [state_stop] in E. inversion E; subst s1 next.
+      rewrite set_state_not_connected in * by (try exact Ec; reflexivity).
+      apply (ri_dead k0 c0 SLatent Hri0 Ec eq_refl). left; reflexivity.
+  - (* reset time *) apply Hplain; [exact Hb' | fr_go | cb_go].
 Qed.
 
-(* ---------- the invariant and the trace theorem ---------- *)
-Definition C08Quiet (k : c08_st) (s : sess) : Prop :=
-  C08Inv k s /\ s_in_buf s = [] /\ (gst (s_st s) = true \/ s_st s = SLogon) /\ k_logged k = gl (s_st s).
-
-Lemma c08_quiet_step : forall k s e, C08Quiet k s -> quiet_ev (s_cfg s) e ->
-  (forall x, In x (c08_event_codes k e (obs_of (step s e))) -> ~ In x [803; 804; 806])
-  /\ C08Quiet (c08_next k e (obs_of (step s e))) (step s e).
+(* what the invariant says about the event's codes and the automaton's next state *)
+Lemma event_codes_ri k e s' : RI (c08_k0 k e) s' ->
+  (forall x, In x (c08_event_codes k e (obs_of s')) -> ~ In x [803; 804; 806])
+  /\ k_logged (c08_next k e (obs_of s')) = gl (s_st s').
 Proof.
-  intros k s e (Hinv & Hib & Hw & Hl) Hq.
-  destruct (quiet_step s e Hib Hw Hq) as (hc & dl & rd & Q1 & Q2 & Q3 & Q4 & Q5 & Q6 & Q7).
+  intros (Hb & Hw & R1 & R2 & R3 & R4 & R5).
+  change (rev (s_cbs s')) with (ob_cbs (obs_of s')) in *.
+  split; [|unfold c08_next; cbv zeta; cbn [k_logged]; exact R3].
+  intros x Hx. unfold c08_event_codes in Hx. cbv zeta in Hx. rewrite R1, R2, R3 in Hx. cbn [app] in Hx.
+  apply in_app_or in Hx as [Hx|Hx].
+  { apply wire_fold_codes_any in Hx. intros [H|[H|[H|[]]]]; subst x; destruct Hx as [Hx|[Hx|Hx]]; discriminate Hx. }
+  exfalso. apply in_app_or in Hx as [Hx|Hx].
+  - assert (Hc : Nat.ltb 1 (count_onlogout (ob_cbs (obs_of s'))) = false) by (apply Nat.ltb_ge; exact R5).
+    rewrite Hc in Hx. destruct Hx.
+  - change (ob_closed (obs_of s')) with (s_closed s') in Hx.
+    destruct (is_connected (s_st s')) eqn:Ec.
+    + destruct (R4 eq_refl) as [C1 _]. rewrite C1 in Hx. destruct Hx.
+    + rewrite (notconn_gl _ Ec), andb_false_r in Hx. destruct Hx.
+Qed.
+
+(* ---------- the invariant at event boundaries and the trace theorem ---------- *)
+Definition C08Full (k : c08_st) (s : sess) : Prop := C08Inv k s /\ WSt (s_st s) /\ k_logged k = gl (s_st s).
+
+Lemma c08_full_step : forall k s e, C08Full k s ->
+  (forall x, In x (c08_event_codes k e (obs_of (step s e))) -> ~ In x [803; 804; 806])
+  /\ C08Full (c08_next k e (obs_of (step s e))) (step s e).
+Proof.
+  intros k s e (Hinv & Hw & Hl).
   assert (Hk0 : k_logged (c08_k0 k e) = gl (s_st s)).
   { destruct e; cbn [c08_k0]; try exact Hl. destruct (k_connected k) eqn:Ek; [exact Hl|]. cbn [k_logged].
     destruct Hinv as (Hb & Hk & _). symmetry. apply notconn_gl. rewrite <- (boundary_open_connected s Hb), <- Hk. exact Ek. }
-  destruct (event_codes_quiet k e (obs_of (step s e)) hc dl rd Q1 Q2) as [E1 E2].
-  { rewrite Hk0. exact Q3. }
-  { rewrite Hk0. exact Q4. }
+  pose proof Hinv as (Hb & _).
+  pose proof (ri_step (c08_k0 k e) s e Hb Hw Hk0) as Hri.
+  destruct (event_codes_ri k e (step s e) Hri) as [E1 E2].
   split; [exact E1|].
   destruct (c08_step_inv k s e Hinv) as [_ Hinv'].
-  split; [exact Hinv'|]. split; [exact Q6|]. split; [exact Q7|]. rewrite E2, Hk0, Q5. reflexivity.
+  split; [exact Hinv'|]. destruct Hri as (_ & Hw' & _). split; [exact Hw' | exact E2].
 Qed.
 
-Lemma init_c08quiet c : C08Quiet c08_init (init_sess c).
-Proof. split; [apply init_c08inv|]. split; [reflexivity|]. split; [left; reflexivity | reflexivity]. Qed.
+Lemma init_c08full c : C08Full c08_init (init_sess c).
+Proof. split; [apply init_c08inv|]. split; [left; reflexivity | reflexivity]. Qed.
 
-Lemma c08_scan_quiet : forall es s i k, C08Quiet k s -> Forall (quiet_ev (s_cfg s)) es ->
+Lemma c08_scan_full : forall es s i k, C08Full k s ->
   free_of [803; 804; 806] (c08_scan i k (combine es (map obs_of (run_trace es s)))) = true.
 Proof.
-  induction es as [|e r IH]; intros s i k Hinv Hq; cbn [run_trace map combine]; [reflexivity|].
-  inversion Hq as [|e' r' Hq1 Hq2]; subst.
-  rewrite c08_scan_cons, free_of_app. destruct (c08_quiet_step k s e Hinv Hq1) as [H1 H2].
-  apply andb_true_iff; split; [apply free_of_map; exact H1|]. apply IH; [exact H2|].
-  rewrite (step_cfg (s_cfg s) s e eq_refl). exact Hq2.
+  induction es as [|e r IH]; intros s i k Hinv; cbn [run_trace map combine]; [reflexivity|].
+  rewrite c08_scan_cons, free_of_app. destruct (c08_full_step k s e Hinv) as [H1 H2].
+  apply andb_true_iff; split; [apply free_of_map; exact H1 | apply IH; exact H2].
 Qed.
 
-Definition no_arrive (es : list event) : bool := forallb (fun e => match e with EArrive _ => false | _ => true end) es.
-
-(* C08, trace level, traces on which no frame is ever buffered in messageIn (every frame is processed as it arrives):
-   803  FromApp only between the logon and the logout notification,
+(* C08, trace level, EVERY trace of the model (every configuration, both roles, every event list, frames buffered in
+   messageIn included):
+   803  FromApp only between the logon notification and the logout notification,
    804  never two logout notifications for one logged-on period,
    806  a logged-on period never ends (channel closed) without the logout notification. *)
-Lemma c08_notifications_when_nothing_buffered : forall c es, Forall (quiet_ev c) es ->
+Lemma c08_notifications_on_every_trace : forall c es,
   free_of [803; 804; 806] (c08_check (combine es (map obs_of (run_trace es (init_sess c))))) = true.
-Proof. intros c es Hq. unfold c08_check. apply c08_scan_quiet; [apply init_c08quiet | exact Hq]. Qed.
+Proof. intros c es. unfold c08_check. apply c08_scan_full. apply init_c08full. Qed.
 
-Lemma c08_notifications_without_arrivals : forall c es, no_arrive es = true ->
-  free_of [803; 804; 806] (c08_check (combine es (map obs_of (run_trace es (init_sess c))))) = true.
+Lemma free_of_both a b l : free_of a l = true -> free_of b l = true -> free_of (a ++ b) l = true.
 Proof.
-  intros c es H. apply c08_notifications_when_nothing_buffered. apply Forall_forall. intros e He.
-  unfold no_arrive in H. rewrite forallb_forall in H. specialize (H e He). destruct e; try exact I. discriminate H.
+  unfold free_of. intros Ha Hb. apply forallb_forall. intros f Hf.
+  rewrite forallb_forall in Ha, Hb. specialize (Ha f Hf). specialize (Hb f Hf).
+  rewrite existsb_app, negb_orb, Ha, Hb. reflexivity.
 Qed.
 
-Lemma c08_notifications_unbuffered_channel : forall c es, c_in_cap c = 0%nat ->
-  free_of [803; 804; 806] (c08_check (combine es (map obs_of (run_trace es (init_sess c))))) = true.
+(* all the clauses of c08_check but 802 *)
+Lemma c08_all_but_802 : forall c es,
+  free_of [801; 805; 803; 804; 806] (c08_check (combine es (map obs_of (run_trace es (init_sess c))))) = true.
 Proof.
-  intros c es H. apply c08_notifications_when_nothing_buffered. apply Forall_forall. intros e _. destruct e; try exact I. exact H.
+  intros c es. apply (free_of_both [801; 805] [803; 804; 806]);
+    [apply c08_first_message_and_silence_after_close | apply c08_notifications_on_every_trace].
 Qed.
 
-(* the hypothesis is satisfiable on a trace that does something: logon, an application message handed over, logout *)
+(* the automaton's "logged" flag follows the session state at every event boundary of every trace *)
+Lemma c08_full_general : forall es s k, C08Full k s ->
+  Forall2 C08Full (c08_states k (combine es (map obs_of (run_trace es s)))) (run_trace es s).
+Proof.
+  induction es as [|e r IH]; intros s k Hinv; cbn [run_trace map combine c08_states]; [constructor|].
+  destruct (c08_full_step k s e Hinv) as [_ H2]. constructor; [exact H2 | apply IH; exact H2].
+Qed.
+Lemma c08_logged_coupling : forall c es,
+  Forall2 (fun k s => k_logged k = gl (s_st s))
+          (c08_states c08_init (combine es (map obs_of (run_trace es (init_sess c))))) (run_trace es (init_sess c)).
+Proof.
+  intros c es. eapply Forall2_imp; [|exact (c08_full_general es (init_sess c) c08_init (init_c08full c))].
+  intros k s (_ & _ & H). exact H.
+Qed.
+
+(* examples: a trace with buffered frames at a self-initiated disconnect (the former witness), and a plain one *)
 Definition c08_ex_quiet : list event :=
   [EConnect; EIncoming (c08_ex_msg T_LOGON 1); EIncoming (c08_ex_msg (B "D") 2); EAppSend (B "D") [] true; EFlush;
    EIncoming (c08_ex_msg T_LOGOUT 3)].
 Lemma c08_ex_quiet_ok :
-  no_arrive c08_ex_quiet = true /\ c08_trace_check (c08_ex_cfg Acceptor) c08_ex_quiet = []
+  c08_trace_check (c08_ex_cfg Acceptor) c08_ex_quiet = []
   /\ map (fun s => length (s_cbs s)) (run_trace c08_ex_quiet (init_sess (c08_ex_cfg Acceptor))) = [0; 3; 1; 1; 0; 3]%nat.
 Proof. vm_compute. repeat split; reflexivity. Qed.
-(* clause 802 cannot join them: its witness buffers nothing *)
-Lemma c08_ex_802_quiet : no_arrive c08_ex_802 = true.
-Proof. reflexivity. Qed.
 
 Lemma handlers_never_notify_logout : forall st s m s1 next, state_fix_msg_in st s m = (s1, next) ->
   exists new, s_cbs s1 = new ++ s_cbs s /\ Forall (fun c => c <> CbOnLogout) new.
 Proof. intros st s m s1 next E. exact (cb_state_fix_msg_in s st s m s1 next E (cbr_refl Lnologout s)). Qed.
+
